@@ -919,7 +919,7 @@ class DataType(object):
         max_len = int(split_data_type[1])
 
         if max_len > 0:
-            if [value for value in values if len(value) > max_len]:
+            if [value for value in values if len(str(value)) > max_len]:
                 # At least one value is too long and we can not
                 # normalize it without loosing data.
                 raise EDXMLEventValidationError(
